@@ -1453,8 +1453,12 @@ pub fn renamed_spec(fs: &FnSpec, text: &str, pinned: Option<&serde_json::Value>,
             map.insert(o.clone(), n.clone());
         }
     };
-    if pp.len() == cp.len() { for (o, n) in pp.iter().zip(cp.iter()) { add(o, n, &mut map); } }
-    if pl.len() == cl.len() {
+    if pp.len() == cp.len() && pp.iter().zip(cp.iter()).all(|(o, n)| o == n || !pl.contains(n) && !pp.contains(n)) { for (o, n) in pp.iter().zip(cp.iter()) { add(o, n, &mut map); } }
+    // equally many bindings: a renaming in place — unless a "new" name is one of the old names (then bindings
+    // were moved or swapped, not renamed, and positions mean nothing)
+    let old_names: BTreeSet<&String> = pp.iter().chain(pl.iter()).collect();
+    let in_place = pl.len() == cl.len() && pl.iter().zip(cl.iter()).all(|(o, n)| o == n || !old_names.contains(n));
+    if in_place {
         for (o, n) in pl.iter().zip(cl.iter()) { add(o, n, &mut map); }
     } else if lenient {
         // lets were added or removed as well: align the two name sequences on the names they share (longest
